@@ -105,7 +105,13 @@ impl<T: Qcow2IoOps> Qcow2Dev<T> {
         let mut _compressed_data = Qcow2IoBuf::<u8>::new(aligned_len);
         let res = self.call_read(aligned_off, &mut _compressed_data).await?;
         if res != aligned_len {
-            return Err("do_read_compressed: short read compressed data".into());
+            // `compressed_length` is an upper bound rounded to sectors and
+            // the read is rounded to blocks on top, so for the last
+            // compressed cluster of an image both may reach beyond the end
+            // of the file, which ends right after the compressed data.
+            // What the file doesn't hold can't be part of the stream: the
+            // inflater fails below if it is really truncated.
+            _compressed_data[res..].fill(0);
         }
         let compressed_data = &_compressed_data[pad..(pad + compressed_length)];
 
